@@ -21,6 +21,8 @@
     * `C15_ipfix_work_paid_by_records` IPFIX: the attempts of a data set that DECODES are paid by the records returned
     * `C15_ipfix_work_product`        IPFIX, any data set (the first failing field discards the whole set): at most fields × (bytes + 1)
     * `C15_ipfix_set_work`            the same for what `workOf` adds per set (`ipBodyWork`, including the clone of the cached template)
+    * `C15_v9_set_work_paid`, `C15_ipfix_set_work_paid`  per REPORTED set: modelled work ≤ the set's share of `resultSize` + fields of the
+                                      governing template (the form the first half of the property takes, set by set)
     * `C15_ipfix_discarded_work_fails` a set of `n` good records and one bad one under `k` zero-length fields costs `(n+1)·(k+1)` attempts
                                       and returns NOTHING — part of the recorded finding "zero-length fields" (not repairable without
                                       changing what a half-decodable set returns)
@@ -239,5 +241,89 @@ theorem C15_ipfix_discarded_work_fails :
 example : ∃ recs r, ipRecLoop (cfg15 [10] true) [ipProtoField] 3 [6, 17] = .ok (recs, r) ∧ recs.length = 2 ∧
     ipRecWork (cfg15 [10] true) [ipProtoField] 3 [6, 17] = 2 := by
   refine ⟨_, _, rfl, ?_, ?_⟩ <;> decide +kernel
+
+/-! ### per set: work against what the set contributes to the RESULT -/
+
+/-- **C15, first half, one V9 flowset that is reported**: the modelled work of the flowset is at most its share of `resultSize`
+    (`v9SetSize`) plus the number of fields of the governing template — whatever the template (zero-length fields included). -/
+theorem C15_v9_set_work_paid (c : Config) (st st' : PState) (id len : Nat) (body : Bytes) (b : V9Body) (M : Nat)
+    (h : v9ParseBody c st id body = (st', .ok b))
+    (hM : ∀ t, amLookup id st.v9T = some t → t.fields.length ≤ M) :
+    v9BodyWork c st id body ≤ v9SetSize { id := id, len := len, body := b } + M := by
+  by_cases h12 : id = c.t.v9TemplateId ∨ id = c.t.v9OptTemplateId
+  · rw [C15_v9_other_flowsets_free c st id body (by rcases h12 with h1 | h2; exact Or.inl h1; exact Or.inr (Or.inl h2))]
+    exact Nat.zero_le _
+  · have h1 : id ≠ c.t.v9TemplateId := fun e => h12 (Or.inl e)
+    have h2 : id ≠ c.t.v9OptTemplateId := fun e => h12 (Or.inr e)
+    cases h3 : amLookup id st.v9O with
+    | some ot =>
+      rw [C15_v9_other_flowsets_free c st id body (Or.inr (Or.inr (Or.inl (by simp [h3]))))]
+      exact Nat.zero_le _
+    | none =>
+      cases h4 : amLookup id st.v9T with
+      | none =>
+        rw [C15_v9_other_flowsets_free c st id body (Or.inr (Or.inr (Or.inr h4)))]
+        exact Nat.zero_le _
+      | some t =>
+        have hw := C15_v9_flowset_work_paid c st id body t h1 h2 h3 h4
+        have hk := hM t h4
+        simp only [v9ParseBody, h1, h2, if_false, h3, h4] at h
+        by_cases hz : v9TotalSize t.fields = 0
+        · simp [hz] at h
+        · simp only [hz, if_false, Prod.mk.injEq, Res.ok.injEq] at h
+          obtain ⟨_, hb⟩ := h
+          rw [← hb]
+          simp only [v9SetSize]
+          omega
+
+/-- **the same for one IPFIX data set that is reported**: the clone of the cached template and the decode attempts are at most the
+    set's share of `resultSize` (`ipSetSize`) plus the number of fields of the governing template -/
+theorem C15_ipfix_set_work_paid (c : Config) (st st' : PState) (id len : Nat) (body : Bytes) (b : IpBody) (M : Nat)
+    (h : ipParseBody c st id body = (st', .ok b))
+    (hT : ∀ t, amLookup id st.ipT = some t → t.fields.length ≤ M)
+    (hO : ∀ t, amLookup id st.ipO = some t → t.fields.length ≤ M) :
+    ipBodyWork c st id body ≤ ipSetSize { id := id, len := len, body := b } + M := by
+  unfold ipBodyWork
+  split
+  · exact Nat.zero_le _
+  · rename_i hcls
+    have g1 : ¬ (id < c.t.ipSetMinRange ∧ id ≠ c.t.ipOptTemplateId) := fun e => hcls (Or.inl e)
+    have g2 : ¬ id = c.t.ipOptTemplateId := fun e => hcls (Or.inr e)
+    simp only [ipParseBody, g1, g2, if_false] at h
+    cases h1 : amLookup id st.ipT with
+    | some t =>
+      have hk := hT t h1
+      simp only [h1] at h ⊢
+      by_cases he : t.fields.isEmpty = true
+      · simp [he] at h
+      · simp only [he, Bool.false_eq_true, if_false] at h
+        cases hl : ipRecLoop c t.fields (body.length + 1) body with
+        | ok q =>
+          obtain ⟨recs, pad⟩ := q
+          simp only [hl, Prod.mk.injEq, Res.ok.injEq] at h
+          have hw := ipRecWork_ok c t.fields _ body recs pad hl
+          rw [← h.2]; simp only [ipSetSize]; omega
+        | err => simp [hl] at h
+        | panic => simp [hl] at h
+        | overflow => simp [hl] at h
+    | none =>
+      simp only [h1] at h ⊢
+      cases h2 : amLookup id st.ipO with
+      | some t =>
+        have hk := hO t h2
+        simp only [h2] at h ⊢
+        by_cases he : t.fields.isEmpty = true
+        · simp [he] at h
+        · simp only [he, Bool.false_eq_true, if_false] at h
+          cases hl : ipRecLoop c t.fields (body.length + 1) body with
+          | ok q =>
+            obtain ⟨recs, pad⟩ := q
+            simp only [hl, Prod.mk.injEq, Res.ok.injEq] at h
+            have hw := ipRecWork_ok c t.fields _ body recs pad hl
+            rw [← h.2]; simp only [ipSetSize]; omega
+          | err => simp [hl] at h
+          | panic => simp [hl] at h
+          | overflow => simp [hl] at h
+      | none => exact Nat.zero_le _
 
 end Netflow.Props
